@@ -157,6 +157,7 @@ func c03Leaves() []zn.Stmt {
 		zn.Return{Val: zn.Var{Name: "A"}},
 		zn.Throw{Class: "异常", Args: []zn.Expr{zn.Str{Val: "m"}}},
 		zn.Throw{Class: "E", Args: []zn.Expr{zn.Num{Lit: "1"}, zn.Var{Name: "A"}}},
+		zn.Throw{Class: "E"}, // (the arguments are optional: BNF)
 		zn.Break{}, zn.Continue{},
 		zn.ExprStmt{E: zn.Assign{Target: zn.Var{Name: "A"}, Val: zn.Num{Lit: "1"}}},
 		zn.ExprStmt{E: zn.Call{Name: "F", Args: []zn.Expr{zn.Var{Name: "A"}, zn.Num{Lit: "1"}}}},
@@ -776,7 +777,7 @@ func init() {
 	mc.Register(&mc.Check{
 		ID:    "C03",
 		Level: "exploration",
-		Rule:  "E1 x E3: ASTs = every statement list with <= k nodes (nesting <= 2) over 12 leaf statement forms and 14 compound forms (all 14 statement kinds), 90 program-section combinations (导入/输入/statements/拦截), every expression form over {name, number, text} and every such expression in every slot of every form, each placed in 8 statement slots, 512 nested branch chains (outer 如果/再如/否则 shape x inner shape x position x loop wrapper x trailing statements); layouts = every vector of renderer choice points (synonym spellings, ASCII/full-width punctuation, quote family, optional space or /* */ comment between tokens, optional ， before 且/或/得到, end-of-line comments, blank lines, LF/CRLF/CR/LFCR globally and per line, TAB/4-space, line break after ， 、 { 【, 令： block form, ； instead of a line break) with <= d deviations from the default layout (deviation-bounded DFS). Oracle: dump(parser tree) == generator tree. Plus every single-token delete/duplicate/swap/truncate of every default rendering: accepted => completeness walker finds no missing part. Every (AST, layout) pair is distinct; all are non-trivial.",
+		Rule:  "E1 x E3: ASTs = every statement list with <= k nodes (nesting <= 2) over 13 leaf statement forms and 14 compound forms (all 14 statement kinds), 90 program-section combinations (导入/输入/statements/拦截), every expression form over {name, number, text} and every such expression in every slot of every form, each placed in 8 statement slots, 512 nested branch chains (outer 如果/再如/否则 shape x inner shape x position x loop wrapper x trailing statements); layouts = every vector of renderer choice points (synonym spellings, ASCII/full-width punctuation, quote family, optional space or /* */ comment between tokens, optional ， before 且/或/得到, end-of-line comments, blank lines, LF/CRLF/CR/LFCR globally and per line, TAB/4-space, line break after ， 、 { 【, 令： block form, ； instead of a line break) with <= d deviations from the default layout (deviation-bounded DFS). Oracle: dump(parser tree) == generator tree. Plus every single-token delete/duplicate/swap/truncate of every default rendering: accepted => completeness walker finds no missing part. Every (AST, layout) pair is distinct; all are non-trivial.",
 		Assumptions: []string{
 			"the harness renderer's layout alternatives are exactly those the manual allows (listed in DESIGN.md C03); commas are only inserted where the manual exemplifies them",
 			"EmptyStmt nodes (from ；) are not part of the compared tree",
